@@ -4,4 +4,5 @@ set -e
 export GOFLAGS=-mod=mod GOPROXY=off GOSUMDB=off GOTOOLCHAIN=local
 cd /verif
 ./build.sh
+./build.sh race
 echo "setup ok"
